@@ -142,6 +142,10 @@ def expr(e):
             return "(.isInt %s)" % expr(a[0])
         if f == "isinstance" and len(a) == 2 and isinstance(a[1], ast.Name) and a[1].id == "slice":
             return "(.isSlice %s)" % expr(a[0])
+        if f == "isinstance" and len(a) == 2 and isinstance(a[1], ast.Name) and a[1].id == "float":
+            return "(.isFloat %s)" % expr(a[0])
+        if f == "isinstance" and len(a) == 2 and isinstance(a[1], ast.Name) and a[1].id == "str":
+            return "(.isStrInst %s)" % expr(a[0])
         if f == "len" and len(a) == 1:
             if isinstance(a[0], ast.Constant) and isinstance(a[0].value, bytes):
                 return "(.len (.strc [%s]))" % ", ".join(str(b) for b in a[0].value)   # length of a bytes literal
@@ -173,6 +177,8 @@ def expr(e):
     if isinstance(e, ast.Call) and isinstance(e.func, ast.Attribute) and e.func.attr == "rpartition" \
             and len(e.args) == 1 and not e.keywords:
         return "(.rpartition %s %s)" % (expr(e.func.value), expr(e.args[0]))
+    if isinstance(e, ast.List) and e.elts and all(is_strconst(x) for x in e.elts):
+        return "(.slistc [%s])" % ", ".join(codes(x.value) for x in e.elts)    # ["a", "b"]
     if isinstance(e, (ast.List, ast.Tuple)) and not e.elts:
         return ".emptyList"                                                    # [] / ()
     if isinstance(e, ast.Call) and isinstance(e.func, ast.Attribute) and e.func.attr == "get" \
@@ -281,7 +287,16 @@ def inline_call(s):
     import copy
     if not INLINE or not isinstance(s, (ast.Expr, ast.Assign, ast.AugAssign, ast.Return)):
         return None, s
-    calls = [n for n in ast.walk(s) if isinstance(n, ast.Call) and isinstance(n.func, ast.Name) and n.func.id in INLINE]
+    def walk_visible(n):
+        # (an abstracted sub-expression is an input of the block: calls inside it are not inlined)
+        if ABSTRACT and isinstance(n, ast.expr) and ast.unparse(n) in ABSTRACT:
+            return
+        yield n
+        for c in ast.iter_child_nodes(n):
+            for x in walk_visible(c):
+                yield x
+
+    calls = [n for n in walk_visible(s) if isinstance(n, ast.Call) and isinstance(n.func, ast.Name) and n.func.id in INLINE]
     if not calls:
         return None, s
     if len(calls) != 1:
@@ -395,6 +410,11 @@ def stmt1(s, sink, tail=False):
             and s.value.func.attr == "append" and isinstance(s.value.func.value, ast.Name) \
             and len(s.value.args) == 1 and not s.value.keywords:
         return "(.append %s %s)" % (lstr(s.value.func.value.id), expr(s.value.args[0]))     # x.append(e)
+    if isinstance(s, ast.Expr) and isinstance(s.value, ast.Call) and isinstance(s.value.func, ast.Attribute) \
+            and s.value.func.attr == "sort" and isinstance(s.value.func.value, ast.Name) and not s.value.args \
+            and len(s.value.keywords) == 1 and s.value.keywords[0].arg == "key" \
+            and isinstance(s.value.keywords[0].value, ast.Attribute) and s.value.keywords[0].value.attr == "index":
+        return "(.sortByIndex %s %s)" % (lstr(s.value.func.value.id), expr(s.value.keywords[0].value.value))
     if isinstance(s, ast.Break):
         if not tail:
             raise Untranslatable("break that is not the last thing the loop body does")
@@ -847,6 +867,32 @@ def generate_proj(repo):
     return "\n".join(parts)
 
 
+def generate_das(repo):
+    """responses/das.py `type_convert` / `get_type` (C08's `Das.typeConvert` / `Das.listType`)"""
+    das = parse_src(repo, "responses", "das.py")
+
+    def convert():
+        return stmts(body_of(find_function(das, "type_convert")), None, tail=True)
+
+    def get_type():
+        table = {"hasattr(values, 'dtype')": "@has_dtype",
+                 "NUMPY_TO_DAP2_TYPEMAP[values.dtype.char]": "@numpy_type",
+                 "isinstance(values, Iterable)": "@is_iterable",
+                 "[type_convert(val) for val in values]": "@types"}
+        with abstracting(table):
+            with inlining([find_function(das, "type_convert")]):
+                return stmts(body_of(find_function(das, "get_type")), None, tail=True)
+
+    parts = [HEADER,
+             block("src_type_convert", "responses/das.py type_convert: the whole body (`return e` is `@ret = e`)", convert),
+             block("src_get_type", "responses/das.py get_type: the whole body; inputs: `@has_dtype` for `hasattr(values, \"dtype\")`, "
+                   "`@numpy_type` for `NUMPY_TO_DAP2_TYPEMAP[values.dtype.char]`, `@is_iterable` for `isinstance(values, Iterable)`, "
+                   "`@types` for the comprehension `[type_convert(val) for val in values]`; the call `type_convert(values)` is "
+                   "inlined; `types.sort(key=precedence.index)` is `sortByIndex`", get_type),
+             "end Pydap.Gen\n"]
+    return "\n".join(parts)
+
+
 def generate_hlib(repo):
     """handlers/lib.py `check_hyperslab` (C15/C02's `Handler.validSl` / the guard of `Handler.sliceBase`)"""
     hlib = parse_src(repo, "handlers", "lib.py")
@@ -862,7 +908,7 @@ def generate_hlib(repo):
     return "\n".join(parts)
 
 
-GENERATORS = [("HlibSrc.lean", generate_hlib), ("ProjSrc.lean", generate_proj), ("SsfSrc.lean", generate_ssf), ("DmrSrc.lean", generate_dmr), ("LibSrc.lean", generate_lib), ("SliceSrc.lean", generate), ("DapSrc.lean", generate_dap), ("DodsSrc.lean", generate_dods),
+GENERATORS = [("DasSrc.lean", generate_das), ("HlibSrc.lean", generate_hlib), ("ProjSrc.lean", generate_proj), ("SsfSrc.lean", generate_ssf), ("DmrSrc.lean", generate_dmr), ("LibSrc.lean", generate_lib), ("SliceSrc.lean", generate), ("DapSrc.lean", generate_dap), ("DodsSrc.lean", generate_dods),
               ("AppSrc.lean", generate_app), ("CeSrc.lean", generate_ce)]
 
 
